@@ -4,7 +4,8 @@
    Reading guide.  [serve maxbuf cfg st env bs] is handleIncoming (reader.go 709-738, with
    readHeader, passToHandler, handleGuarded) run on the finite inbound byte stream [bs]:
      maxbuf  MaxBufferedPayloadSz (arbitrary: every theorem holds for every limit)
-     cfg     which message types have a MessageHandler, and whether a default handler is set
+     cfg     which message types have a MessageHandler, whether a default handler is set, and
+             which types are never treated as replies (reader-initiated ones, since the C03 fix)
      st      the awaiting map (ids with a caller blocked in send) and the receivedClosed flag
      env j   for the j-th header read: ids registered by the write loop since the previous
              lookup, and what the handler (if one is called) does: HRead k / HPanic k = read
@@ -31,7 +32,7 @@ Theorem C04_stream_alignment :
   Forall frame_wf fs ->
   serve maxbuf cfg st env (concat (map frame_bytes fs) ++ rest)
   = prepend (expected_log maxbuf cfg st env O fs)
-            (serve_from maxbuf cfg (state_after st env O fs) env (length fs) rest).
+            (serve_from maxbuf cfg (state_after cfg st env O fs) env (length fs) rest).
 Proof. exact serve_alignment. Qed.
 Print Assumptions C04_stream_alignment.
 
@@ -42,7 +43,7 @@ Theorem C04_whole_stream :
   Forall frame_wf fs ->
   serve maxbuf cfg st env (concat (map frame_bytes fs))
   = mkResult (expected_log maxbuf cfg st env O fs)
-             (if s_closed_seen (state_after st env O fs) then EndWaitClose else EndEOF) [].
+             (if s_closed_seen (state_after cfg st env O fs) then EndWaitClose else EndEOF) [].
 Proof. exact serve_whole_stream. Qed.
 Print Assumptions C04_whole_stream.
 
@@ -59,8 +60,8 @@ Theorem C04_dispatch_exactly_once :
   Forall frame_wf fs ->
   exists l tail,
     r_log (serve maxbuf cfg st env (concat (map frame_bytes fs) ++ rest)) = l ++ tail /\
-    all_entitled maxbuf cfg env O (awaited_seq st env O fs) fs l /\
-    tail = r_log (serve_from maxbuf cfg (state_after st env O fs) env (length fs) rest).
+    all_entitled maxbuf cfg env O (awaited_seq cfg st env O fs) fs l /\
+    tail = r_log (serve_from maxbuf cfg (state_after cfg st env O fs) env (length fs) rest).
 Proof. exact serve_exactly_once. Qed.
 Print Assumptions C04_dispatch_exactly_once.
 
@@ -73,17 +74,17 @@ Theorem C04_panic_does_not_end :
   Forall frame_wf (fs1 ++ f :: fs2) ->
   pick_handler cfg (f_typ f) = Some w ->
   hb_panics (e_beh (env (length fs1))) = true ->
-  let st1 := state_after st env O fs1 in
-  let st2 := state_next st1 (env (length fs1)) f in
+  let st1 := state_after cfg st env O fs1 in
+  let st2 := state_next cfg st1 (env (length fs1)) f in
   let r := serve maxbuf cfg st env (concat (map frame_bytes (fs1 ++ f :: fs2)) ++ rest) in
   exists d c,
     r_log r = expected_log maxbuf cfg st env O fs1
               ++ d :: expected_log maxbuf cfg st2 env (S (length fs1)) fs2
-              ++ r_log (serve_from maxbuf cfg (state_after st2 env (S (length fs1)) fs2) env
+              ++ r_log (serve_from maxbuf cfg (state_after cfg st2 env (S (length fs1)) fs2) env
                           (length (fs1 ++ f :: fs2)) rest) /\
     d_hdr d = frame_header f /\
     d_handler d = Some c /\ hc_who c = w /\ hc_panicked c = true /\ hc_offered c = f_payload f /\
-    r_end r = r_end (serve_from maxbuf cfg (state_after st2 env (S (length fs1)) fs2) env
+    r_end r = r_end (serve_from maxbuf cfg (state_after cfg st2 env (S (length fs1)) fs2) env
                           (length (fs1 ++ f :: fs2)) rest).
 Proof. exact serve_panic_does_not_end. Qed.
 Print Assumptions C04_panic_does_not_end.
@@ -105,7 +106,7 @@ Print Assumptions C04_header_roundtrip.
    frames: an awaited over-limit reply, a KeepAlive with 3 payload bytes, an unsolicited type 63;
    then a truncated header. *)
 Example C04_example :
-  let cfg := mkConfig (fun t => t =? 62) true in
+  let cfg := mkConfig (fun t => t =? 62) true (fun t => (t =? 62) || (t =? 61) || (t =? 63)) in
   let env := fun j => match j with
                       | O => mkEnv [7] (HRead 2)
                       | S O => mkEnv [] (HPanic 1)
